@@ -110,6 +110,49 @@ pub fn c17(ctx: &Ctx) -> Report {
         let m = GlideM::new(fs, vec![0.0, 1.0, -1.0, 1.0e6], vec![0.0, f32::from_bits(1), 1.0e-10, 1.0 / fs, 2.0 / fs, 10.0, 1.0e10, f32::MAX]);
         enumerate_sequences(&m, depth, ctx, &mut rep, P, &format!("glide extreme times at {} Hz, depth {}", fs, depth));
     }
+    // glide: long holds at small, ordinary, large and huge magnitudes for a grid of rates and times (rounded
+    // coefficients differ from one (rate, time) pair to the next)
+    {
+        let mut jobs: Vec<(f32, f32)> = Vec::new();
+        for fs in [100.0f32, 441.0, 1000.0, 8000.0, 44100.0, 48000.0] {
+            for t in [0.0f32, 0.01, 0.06, 0.2, 0.5, 1.0, 2.5, 5.0, 7.5, 10.0] {
+                jobs.push((fs, t));
+            }
+        }
+        let jr = &jobs;
+        par_ranges(ctx, &mut rep, jobs.len() as u64, jobs.len() as u64, |_, lo, hi, lc| {
+            for j in lo..hi {
+                let (fs, t) = jr[j as usize];
+                for level in [1.0e-30f32, 1.0e-13, 0.3, 1.9, 2.5, 60.0, 1000.0, 1.0e6, 3.0e38] {
+                    let n = ((3.0 * t as f64 * fs as f64) as usize).min(if thorough { 400_000 } else { 60_000 }) + 64;
+                    let r = std::panic::catch_unwind(|| {
+                        let mut g = synth_utils::glide_processor::GlideProcessor::new(fs);
+                        g.set_time(t);
+                        let mut y = 0.0f32;
+                        for _ in 0..n {
+                            y = g.process(level);
+                        }
+                        for _ in 0..n / 2 {
+                            y = g.process(-level);
+                        }
+                        for _ in 0..n / 4 {
+                            y = g.process(level * 0.5);
+                        }
+                        y
+                    });
+                    lc.count("glide_long_holds", 1);
+                    match r {
+                        Err(e) => lc.violation(viol("panic-glide", format!("glide processor at {} Hz, time {} s, level {:e}: {}", fs, t, level, panic_msg(&e)), "glide", json!({"fs": fs}), vec![format!("set_time:{:?}", t), format!("process:{:?}*{}", level, n), format!("process:{:?}*{}", -level, n / 2), format!("process:{:?}*{}", level * 0.5, n / 4)])),
+                        Ok(y) => {
+                            if !y.is_finite() {
+                                lc.violation(viol("not-finite-glide", format!("glide processor at {} Hz, time {} s, level {:e}: output {:?}", fs, t, level, y), "glide", json!({"fs": fs}), vec![format!("set_time:{:?}", t), format!("process:{:?}*{}", level, n)]));
+                            }
+                        }
+                    }
+                }
+            }
+        });
+    }
     // quantizer
     {
         let mut edits: Vec<QOp> = vec![QOp::Forbid(vec![0]), QOp::Allow(vec![0]), QOp::Forbid(vec![255, 11]), QOp::Allow(vec![200]), QOp::Forbid((0..12).collect()), QOp::Forbid(vec![12, 13, 14, 15, 16])];
